@@ -15,6 +15,7 @@ import ElvProofs.C15.Scope
 import ElvProofs.C15.SoundStep
 import ElvProofs.C15.Fuel
 import ElvProofs.C15.TermStep
+import ElvProofs.C15.StreamLaws
 set_option linter.unusedSimpArgs false
 open C15
 
@@ -467,3 +468,91 @@ theorem C15_unfixed_stale_element_container :
     Ex.text { staleElem := false } Ex.twoElementsOfOneVariable = "ok|['a' 'b' 'z']" ∧
     Ex.text { staleElem := true } Ex.twoElementsOfOneVariable = "ok|['x' 'b' 'z']" := by
   constructor <;> rfl
+
+/-! ### Pure value-stream / container builtins (documentation of `compact`, `dissoc`, `make-map`, `assoc`, `conj`)
+
+Added after the seeded change C15-compact-drops-leading-nil: the stream builtin
+`compact` was outside the reference.  `compact` is now in it, with the laws its
+documentation states ("Replaces consecutive runs of equal values with a single
+copy"). -/
+
+/-- The `compact` COMMAND of the reference: it takes everything from the input
+port and writes `compact` of it to the output — nothing else changes. -/
+theorem C15_compact_command (s : St) :
+    callBuiltin "compact" [] [] [] s = .ret () { s with inp := [], out := s.out ++ compact s.inp } ∧
+    (∀ vs, callBuiltin "compact" [.list vs] [] [] s = .ret () { s with out := s.out ++ compact vs }) :=
+  ⟨rfl, fun _ => rfl⟩
+
+/-- `compact` removes EXACTLY the consecutive duplicates: (1) the output has no
+two equal neighbours; (2) it is a subsequence of the input; (3) an input
+without equal neighbours is output unchanged; (4) compacting again changes
+nothing; (5) the first value is always kept — whatever it is (`$nil` included:
+the seeded change dropped it); (6) nothing in, nothing out and only then;
+(7) step by step: the second value is dropped iff it equals the first. -/
+theorem C15_compact_exactly_consecutive_duplicates (vs : List Value) :
+    NoAdj (compact vs) = true ∧
+    List.Sublist (compact vs) vs ∧
+    (NoAdj vs = true → compact vs = vs) ∧
+    compact (compact vs) = compact vs ∧
+    (∀ v rest, vs = v :: rest → (compact vs).head? = some v) ∧
+    (compact vs = [] ↔ vs = []) ∧
+    (∀ v w rest, vs = v :: w :: rest →
+      compact vs = if veq v w then compact (v :: rest) else v :: compact (w :: rest)) :=
+  ⟨compact_noAdj vs, compact_sublist vs, compact_of_noAdj, compact_idem vs,
+   fun v rest h => by subst h; exact compact_head v rest, compact_eq_nil,
+   fun v w rest h => by subst h; exact compact_cons_cons v w rest⟩
+
+-- non-vacuity: the witness of the seeded change (`put $nil $nil a | compact`), runs at both ends, no runs
+example : compact [.nil, .nil, .str "a"] = [.nil, .str "a"] := by rfl
+example : compact [.str "a", .str "a", .str "b", .str "b", .str "c"] = [.str "a", .str "b", .str "c"] := by rfl
+example : compact [.str "a", .str "b", .str "a"] = [.str "a", .str "b", .str "a"] := by rfl
+example : compact [.bool false, .list [], .list [], .map [], .nil, .nil] = [.bool false, .list [], .map [], .nil] := by rfl
+example : NoAdj [.str "a", .str "b", .str "a"] = true := by rfl
+example : Ex.text {} [.cmd (.lit "put") [.var "nil", .var "nil", .lit "a"] [] []] = "ok|$nil $nil 'a'" := by rfl
+example : (runProgram {} 60 (.mk [.mk [.cmd (.lit "put") [.var "nil", .var "nil", .lit "a"] [] [], .cmd (.lit "compact") [] [] []]])).text
+    = "ok|$nil 'a'" := by rfl
+
+/-- `dissoc`: "If `$map` does not contain `$k` as a key, the same map is returned." -/
+theorem C15_dissoc_absent_key (m : List (Value × Value)) (k : Value) (h : mapGet m k = none) :
+    dissocB (.map m) k = .vals [.map m] := by
+  show PRes.vals [.map (mapDel m k)] = _
+  rw [mapDel_absent h]
+
+example : mapGet [(.str "foo", .str "bar")] (.str "k") = none := by rfl
+
+/-- `make-map`: "If the same key appears multiple times, the last value is used"
+(for a key that equals itself — every value of the exact fragment does). -/
+theorem C15_make_map_last_wins (k v1 v2 : Value) (hk : veq k k = true) :
+    makeMap [.list [k, v1], .list [k, v2]] = .vals [.map [(k, v2)]] := by
+  simp [makeMap, makeMapFrom, makeMapPair, mapPut, mapDel, hk]
+
+example : veq (.str "k") (.str "k") = true := by rfl
+example : makeMap [.list [.nil, .str "a"], .str "kv"] = .vals [.map [(.nil, .str "a"), (.str "k", .str "v")]] := by rfl
+
+/-- `assoc` on a map: afterwards the key is there (`has-key`) with the new
+value, whatever was there before; `conj`: "The output is the same as
+`[$@list $more...]`". -/
+theorem C15_assoc_then_lookup (m : List (Value × Value)) (k v : Value) (hk : veq k k = true) :
+    assocB (.map m) k v = .vals [.map (mapPut m k v)] ∧
+    hasKey (.map (mapPut m k v)) k = .vals [.bool true] ∧
+    indexValue (.map (mapPut m k v)) k = .ok v ∧
+    (∀ vs more, conjB (.list vs) more = .vals [.list (vs ++ more)]) := by
+  have hget : mapGet (mapPut m k v) k = some v := by
+    unfold mapGet mapPut mapDel
+    rw [List.find?_append]
+    have : List.find? (fun kv => veq kv.1 k) (List.filter (fun kv => !veq kv.1 k) m) = none := by
+      rw [List.find?_eq_none]
+      intro kv hkv
+      have := (List.mem_filter.mp hkv).2
+      simpa using this
+    rw [this]
+    simp [hk]
+  refine ⟨rfl, ?_, ?_, fun _ _ => rfl⟩
+  · show PRes.vals [.bool (mapGet (mapPut m k v) k).isSome] = _
+    rw [hget]; rfl
+  · show (match mapGet (mapPut m k v) k with
+      | some v => Except.ok v
+      | none => Except.error Exc.noSuchKey) = _
+    rw [hget]
+
+example : assocB (.map [(.str "k", .str "v")]) (.str "k") .nil = .vals [.map [(.str "k", .nil)]] := by rfl
